@@ -15,12 +15,13 @@ COQ_FILES = ["FA/Proofs/CaptureProofs.v", "FA/Proofs/CaptureSem.v", "FA/Proofs/C
              "FA/Properties/C05.v"]
 
 LEVEL = ("Coq theorems over the executable model of _rewrite_captured_vars.visit_Name/visit_Call + _resolve_called_lambdas "
-         "(Model/Capture.v, mirroring the code incl. fixes F06, F07, FC2, FC4-FC8, F30-F32; lambdas with default values and every "
+         "(Model/Capture.v, mirroring the code incl. fixes F06, F07, FC2, FC4-FC8, F30-F32, F36 - F34/F35 are inputs; lambdas with default values and every "
          "parameter kind, and starred arguments, are decoded from the generic node encoding): inline_sem_partial - for EVERY expression "
          "tree, backend and environment, resolving called lambdas preserves the value Python's call semantics gives, with no "
          "hygiene hypothesis (the proof uses the implementation's own bail-out test and the coincidence lemma EvalAgree.v); "
          "the one hypothesis, first_order, is the declared limit of the reference semantics (a lambda parameter is not itself "
-         "called); inline_sem_stack (the invariant for arbitrary argument-map stacks); inline_leaves_by_name; structural theorems for "
+         "called); inline_sem_stack (the invariant for arbitrary argument-map stacks); inline_leaves_by_name (with "
+         "inline_walrus_helper_not_inlinable / inline_leaves_walrus_helper_by_name: F36 decided by the model); structural theorems for "
          "what the reference semantics cannot express: inline_leaves_starred_call(_defaults) (F30: a call with a starred argument "
          "stays a call) and inline_keeps_starred_in_place (Proofs/CaptureStar.v: over EVERY tree the pass never moves a starred node "
          "out of an argument list / display), inline_defaults_in_enclosing_scope / inline_default_sees_argument (F31: default values of a lambda that "
@@ -35,7 +36,9 @@ TRUSTED = c04_trusted = ["Coq 8.16.1 kernel (coqc); no axioms (Print Assumptions
                          "harness/bridge.py ast<->expr encoding; harness/props/capture_common.py program generator, snapshot construction, oracles",
                          "inputs of the model, validated by correspondence only: inspect.getclosurevars / f.__globals__ snapshot; "
                          "whether the source of a captured callable is recovered as a Lambda (source recovery, C03)"]
-ASSUME = ["the helper's Lambda (rewrite_func_as_lambda of its source) is an input of the model, built by the generator from the helper's own text",
+ASSUME = ["whether a captured callable is a bound method (inspect.ismethod, F34) or has __wrapped__ (F35) is decided on the live object: "
+          "an input of the model (CFun None), computed by the harness the way the code computes it",
+          "the helper's Lambda (rewrite_func_as_lambda of its source) is an input of the model, built by the generator from the helper's own text",
           "inline_sem: parameters that are themselves called (higher-order helpers) are outside the reference semantics: correspondence + oracle only",
           "starred arguments and lambdas with default values / other parameter kinds have no value in the reference semantics: "
           "inline_sem says nothing about them; structural theorems + correspondence + value and well-formedness oracles do"]
@@ -44,7 +47,10 @@ RULE = ("generated Python programs: every single-return helper body of a typed g
         "the helper, nested helper calls to depth 3, calls inside nested lambdas) x helper kinds (def, def+docstring, defaults, "
         "keyword-only, positional-only, *args, multi-statement, lambda-valued, local/global); starred arguments (41 call shapes x "
         "helper / directly called lambda, scope); helpers returning or keeping lambdas with default values x 5 parameter names x "
-        "call-site binders; staying lambdas binding the argument's name by any parameter kind; non-trivial = python computed a value "
+        "call-site binders; staying lambdas binding the argument's name by any parameter kind; callables that must stay by name "
+        "(bound methods of objects with state, classmethods, functools.wraps / lru_cache decorated functions, a decorator without "
+        "wraps (oracle only), helpers with := in body, default value or nested lambda) x 27 call shapes x 5 parameter names x "
+        "nesting; non-trivial = python computed a value "
         "that was compared with the recorded lambda's; distinct by program text")
 
 
@@ -112,6 +118,9 @@ def names_of(src):
     return {n.id for n in ast.walk(ast.parse(src, mode="eval")) if isinstance(n, ast.Name)}
 
 
+STAY_KINDS = ("method", "classmethod", "wraps", "lru", "deco")
+
+
 def mk(lam, helpers, depth=1, tags=(), group="", scope="g"):
     """helpers: [(name, params(list of names or a raw parameter-list string), body, kind)]"""
     vs = []
@@ -129,14 +138,41 @@ def mk(lam, helpers, depth=1, tags=(), group="", scope="g"):
         elif kind == "value":
             vs.append(Var(h, scope, "%s = %s" % (h, body), "%s = 'REBOUND'" % h))
             continue
+        elif kind in STAY_KINDS:
+            # F34 / F35: callables with a single-return source that must stay calls by name; the oracle executes them, so
+            # they are not rebound after the call.  `helper` is the source text inspect finds (what used to be inlined).
+            if kind == "method":          # a bound method of an object with state (s = 3)
+                src = ("class _K_%s:\n    def __init__(self, s):\n        self.s = s\n    def meth(self, %s):\n        return %s\n"
+                       "%s = _K_%s(3).meth" % (h, plist, body, h, h))
+                hl = (["self"] + list(params), body)
+            elif kind == "classmethod":
+                src = ("class _K_%s:\n    s = 3\n    @classmethod\n    def meth(self, %s):\n        return %s\n"
+                       "%s = _K_%s.meth" % (h, plist, body, h, h))
+                hl = (["self"] + list(params), body)
+            elif kind == "wraps":         # a functools.wraps decorator that changes the result
+                src = ("def _deco_%s(f):\n    @functools.wraps(f)\n    def inner(*a, **k):\n        return f(*a, **k) + 100\n    return inner\n"
+                       "@_deco_%s\ndef %s(%s):\n    return %s" % (h, h, h, plist, body))
+                hl = (list(params), body)
+            elif kind == "lru":           # functools.lru_cache: has __wrapped__ too
+                src = "@functools.lru_cache(None)\ndef %s(%s):\n    return %s" % (h, plist, body)
+                hl = (list(params), body)
+            else:                         # "deco": a decorator WITHOUT functools.wraps - the captured callable is `inner`, a plain
+                #                           closure whose own source and closure are inlined (correctly); its snapshot is not part
+                #                           of the case description: oracle only
+                src = ("def _deco_%s(f):\n    def inner(%s):\n        return f(%s) + 100\n    return inner\n"
+                       "@_deco_%s\ndef %s(%s):\n    return %s" % (h, plist, plist, h, h, plist, body))
+                hl = None
+            vs.append(Var(h, scope, src, "", helper=hl, byname=True, stays=(kind != "deco"), outside=(kind == "deco")))
+            continue
         else:
             raise ValueError(kind)
         inl = kind in ("def", "doc")
         plain = isinstance(params, list)
-        vs.append(Var(h, scope, src, "%s = 'REBOUND'" % h,
+        walrus = inl and any(isinstance(n, ast.NamedExpr) for n in ast.walk(ast.parse(body, mode="eval")))
+        vs.append(Var(h, scope, src, "" if walrus else "%s = 'REBOUND'" % h,
                       helper=(params if plain else [plist], body) if inl else None,
-                      byname=True, lam_helper=(kind == "lambda")))
-        if inl and plain:
+                      byname=True, lam_helper=(kind == "lambda"), stays=walrus))
+        if inl and plain and not walrus:
             # histogram tags only (former open findings, closed by FC4 / FC5)
             lt = ast.parse(lam, mode="eval").body
             for c in ast.walk(lt):
@@ -226,6 +262,71 @@ F32_TEMPLATES = [
 ]
 
 
+# F34 (bound methods), F35 (decorated functions), F36 (assignment expressions): callables that must stay calls by name
+STAY_HELPERS = [
+    ("m", ["a"], "a * self.s", "method"),
+    ("cm", ["a"], "a + self.s", "classmethod"),
+    ("hw", ["a"], "a + 1", "wraps"),
+    ("hw2", ["a", "b"], "a - b", "wraps"),
+    ("hl", ["a"], "a * 2", "lru"),
+    ("hdeco", ["a"], "a + 1", "deco"),
+    ("w", ["a"], "(a := a + 1) * 2", "def"),
+    ("w2", ["a"], "[y := a + 1, y * y][1]", "def"),
+    ("w3", ["a", "b"], "(b := a - b) + b", "doc"),
+    ("wl", ["s"], "sum(s.Select(lambda j: (t := j.pt) + t))", "def"),
+    ("wd", ["a"], "(lambda q, r=(z := a): q + r + z)(1)", "def"),
+    ("h", ["a"], "a + 1", "def"),
+    ("hm", ["a"], "m(a) + 1", "def"),            # inlinable helpers that call the ones that stay
+    ("hhw", ["a"], "hw(a) * 2", "def"),
+    ("hww", ["a"], "w(a) - 1", "def"),
+]
+STAY_NAMES = ["e", "a", "j", "s", "m"]
+STAY_TEMPLATES = [
+    "lambda {P}: m({P}.a)", "lambda {P}: m(m({P}.a))", "lambda {P}: m(h({P}.a)) + h(m({P}.b))", "lambda {P}: cm({P}.a)",
+    "lambda {P}: hw({P}.a)", "lambda {P}: hw(a={P}.a)", "lambda {P}: hw2({P}.a, {P}.b)", "lambda {P}: hw2(b={P}.a, a={P}.b)",
+    "lambda {P}: hl({P}.a)", "lambda {P}: hdeco({P}.a)", "lambda {P}: h(hdeco({P}.a))",
+    "lambda {P}: w({P}.a)", "lambda {P}: w2({P}.a)", "lambda {P}: w3({P}.a, {P}.b)", "lambda {P}: wl({P}.jets)", "lambda {P}: wd({P}.a)",
+    "lambda {P}: w(h({P}.a)) + h(w({P}.b))", "lambda {P}: hm({P}.a)", "lambda {P}: hhw({P}.a)", "lambda {P}: hww({P}.a)",
+    "lambda {P}: sum({P}.jets.Select(lambda {Q}: m({Q}.pt)))", "lambda {P}: sum({P}.jets.Select(lambda {Q}: hw({Q}.pt) + {P}.a))",
+    "lambda {P}: sum({P}.jets.Select(lambda {Q}: w({Q}.pt) + w({P}.a)))", "lambda {P}: sum([m({Q}.pt) + hw({Q}.pt) + w2({Q}.pt) for {Q} in {P}.jets])",
+    "lambda {P}: sum({P}.jets.Select(lambda {Q}: hm({Q}.pt) + hhw({P}.a) + hww({Q}.pt)))",
+    "lambda {P}: (lambda {Q}: m({Q}) + hw({Q}) + w({Q}))({P}.a)", "lambda {P}: {P}.jets.Select(m_pt)",
+]
+STAY_WITNESSES = [("lambda e: m(e.a)", {"F34", "bound-method"}), ("lambda e: hw(e.a)", {"F35", "decorated"}),
+                  ("lambda e: w(e.a)", {"F36", "assignment-expression"})]
+
+
+def _stay_case(lam, depth=1, tags=(), group="stays-by-name", scope="g"):
+    used = names_of(lam)
+    lib = STAY_HELPERS + [("m_pt", ["j"], "j.pt * self.s", "method")]
+    hs = [h for h in lib if h[0] in used]
+    # helpers that the chosen helpers call
+    for h in list(hs):
+        for g in lib:
+            if g[0] in names_of(h[2]) and g not in hs and g[0] != h[0]:
+                hs.insert(0, g)
+    return _keep(mk(lam, hs, depth, tags, group=group, scope=scope))
+
+
+def f34_f36_witnesses():
+    return [_stay_case(lam, 1, tags, group="corpus") for lam, tags in STAY_WITNESSES]
+
+
+def stays_by_name(ctx):
+    out = []
+    for t in STAY_TEMPLATES:
+        two = "{Q}" in t
+        for p in STAY_NAMES:
+            for q in (STAY_NAMES if two else [""]):
+                if two and q == p:
+                    continue
+                lam = t.format(P=p, Q=q)
+                out.append(_stay_case(lam, 1, {"stays-by-name"}))
+                if p in ("e", "a") and (not two or q in ("j", "a")):
+                    out.append(_stay_case(lam, 2, {"stays-by-name"}, scope="l1"))
+    return out
+
+
 def f30_f31_witnesses():
     return [mk("lambda e: h(*e.xs)", [("h", ["a"], "a + 1", "def")], tags={"F30", "starred"}, group="corpus"),
             mk("lambda e: mk(e.off)", [("mk", ["k"], "lambda j, k=k: j + k", "def")], tags={"F31", "defaults-of-staying-lambda"}, group="corpus")] + \
@@ -260,7 +361,7 @@ def starred_and_defaults(ctx):
 
 
 def corpus():
-    out = f30_f31_witnesses()
+    out = f34_f36_witnesses() + f30_f31_witnesses()
     out.append(mk("lambda e: h(e.x)", [("h", ["p"], "p", "def")], tags={"F06"}, group="corpus"))
     out.append(mk("lambda e: (lambda a, b: a + (lambda a: a)(b))(e.x, e.y)", [], tags={"F06"}, group="corpus"))
     out.append(mk("lambda e: h(e)", [("h", ["a"], "a.jets.Select(lambda a: a.pt)", "def")], tags={"F07"}, group="corpus"))
@@ -437,7 +538,7 @@ def structured(ctx):
 def inlinable_left_by_name(case: Case, tree) -> list:
     """Structural part of the oracle: a plain positional call of an inlinable, non-recursive helper - in the passed
     lambda or in the body of another helper (FC5) - must not survive as a call by name."""
-    helpers = {v.name: v for v in case.vars if v.helper is not None and isinstance(v.helper[0], list)
+    helpers = {v.name: v for v in case.vars if v.helper is not None and isinstance(v.helper[0], list) and not v.stays
                and all(p.isidentifier() for p in v.helper[0])}
     calls = {h: names_of(v.helper[1]) & set(helpers) for h, v in helpers.items()}
 
@@ -467,7 +568,7 @@ def inlinable_left_by_name(case: Case, tree) -> list:
 
 
 def run(ctx):
-    cs = corpus() + starred_and_defaults(ctx) + second_call_cases() + higher_order(ctx) + structured(ctx)
+    cs = corpus() + starred_and_defaults(ctx) + stays_by_name(ctx) + second_call_cases() + higher_order(ctx) + structured(ctx)
     en = enumerated(ctx)
     cap = ctx.budget(3000, 60000)
     if len(en) > cap:
